@@ -1,6 +1,20 @@
 """Per-property configuration of the driver (package, test selection, tiers)."""
 
+GENREG = ["go", "run", "./cmd/genregistry", "-repo", "{repo}", "-out", "{rundir}/registry_gen.go",
+          "-overlay", "{rundir}/overlay.json", "-target", "{harness}/msg/registry_gen.go",
+          "-structs", "{structs}", "-seed", "{seed}"]
+
+
+def _msg(run):
+    return {"pkg": "msg", "run": run, "pre": [GENREG], "overlay": True, "structs": {"quick": 200, "thorough": 1200},
+            "quick": {"shards": 1, "timeout": 900}, "thorough": {"shards": 16, "timeout": 3000}}
+
+
 CHECKS = {
+    "C03": _msg("^TestC03"),
+    "C04": _msg("^TestC04"),
+    "C17": _msg("^TestC17"),
+    "C19": _msg("^TestC19"),
     "C01": {"pkg": "wire", "run": "^TestC01",
             "quick": {"shards": 1, "timeout": 600}, "thorough": {"shards": 16, "timeout": 2400}},
     "C02": {"pkg": "wire", "run": "^TestC02",
